@@ -115,8 +115,12 @@ def execute(darsia, ctx, key):
         ck = ("W1", method, backend)
         if ck not in ctx:
             grid = darsia.Grid((4, 3), [0.5, 0.5])
+            ml = backend.endswith("ml")     # "amgml" / "cgml": coarsen already above 4 unknowns, so that a real multilevel hierarchy is built
+            backend = backend[:-2] if ml else backend
             opts = {"num_iter": 6, "linear_solver": backend, "formulation": "pressure", "L": 1.0 if method != "newton" else 1e-2,
                     "linear_solver_options": {"atol": 1e-13, "rtol": 1e-13, "maxiter": 300}, "aa_depth": 2, "aa_restart": 3}
+            if ml:
+                opts["amg_options"] = {"max_coarse": 4}
             if method == "adaptive":
                 opts["bregman_update"] = lambda it: it % 2 == 1
             cls = darsia.WassersteinDistanceNewton if method == "newton" else darsia.WassersteinDistanceBregman
@@ -149,6 +153,8 @@ ALPHABET = {
     "mg-coefficients-replaced": ["MGU|A3|A4", "MGU|2.0|0.7", "MGU|2.0|A4", "MGU|A5|0.7"],
     "newton-direct": ["W1|newton|direct|0", "W1|newton|direct|1"],
     "bregman-amg": ["W1|bregman|amg|0", "W1|bregman|amg|1"],
+    "newton-amg-multilevel": ["W1|newton|amgml|0", "W1|newton|amgml|1", "AA|1.0"],
+    "bregman-cg-multilevel": ["W1|bregman|cgml|0", "W1|bregman|cgml|1"],
     "bregman-adaptive": ["W1|adaptive|direct|0", "W1|adaptive|direct|1"],
     "anderson": ["AA|1.0", "AA|2.0"],
 }
